@@ -140,7 +140,10 @@ class ThrottleExecutor(CanCustomizeBind, Executor):
         self._thread.daemon = True
         self._thread.start()
 
-    def submit(self, fn, *args, **kwargs):  # pylint: disable=arguments-differ
+    def submit(self, *args, **kwargs):  # pylint: disable=arguments-differ
+        # (fn is not a named parameter, so that the callable may take a keyword "fn")
+        fn = args[0]
+        args = args[1:]
         if self._block and self._thread.ident != get_ident():
             # (The submit thread itself never waits: nobody else drains the queue.)
             with self._block_lock:
